@@ -43,4 +43,18 @@ PROPS = {
         "trusted_base": ["qsort + unique in the constructor modelled as insertion into a sorted duplicate-free list"],
         "assumptions": ["operands are over the same field (documented precondition)"],
     },
+    "C13": {
+        "level": "proof",
+        "lean_targets": ["LP.Props.C13"],
+        "harnesses": [{"name": "h_fset", "quick": 3000, "thorough": 40000, "thorough_env": {"LPV_EXH4": "1"}}],
+        "select": lambda t: t[1] == "fset",
+        "nontrivial": lambda t, r: t[2] in ("intersect", "add", "icmp", "contains", "pick", "countint", "containsint"),
+        "rule": "exhaustive: every ordered pair of the 128 normal-form sets over the atoms of the line cut at {0,1,2} (thorough: 512 sets over "
+                "{0,1,2,3}) through intersect-with-status, union (add) and interval comparison, plus all unary observers and membership of every "
+                "end point and mid point; random: pools of 2-6 values mixing integers, rationals, dyadics, algebraic numbers (surrogates) and "
+                "infinities. Non-trivial = binary operation, comparison, membership, picking or integer counting; distinct = distinct line.",
+        "trusted_base": ["algebraic end points are replaced by order-isomorphic non-integer dyadic surrogates chosen inside their refined isolating intervals (harness code)",
+                         "qsort modelled as insertion sort by the same comparator"],
+        "assumptions": ["operands are in normal form (constructed from atom masks)"],
+    },
 }
